@@ -5,8 +5,8 @@
   record, whether that post-state is one of the states the model predicts for an abort at some site of that operation.
   Output: one line per record, `ok`, `skip <op>` (operation not in the abort model) or `UNEXPECTED ...`.
 -/
-import Caches.Model.Abort
-open M.Abort
+import Caches.Model.AbortOwn
+open M M.Abort
 
 abbrev K := Nat
 abbrev V := Nat
@@ -38,25 +38,50 @@ def mkW (cap : Nat) (chain : List (K × V)) (idx : List K) : W K V :=
 def proj (w : W K V) : List (K × V) × List K × Nat :=
   (w.chain.map fun n => (n.key, n.val), sortNat (w.index.map (·.1)), w.cap)
 
-def putSites : List PutSite := [.lookup, .removeOld, .insertNew, .callback, .done]
-def rmSites : List RemoveSite := [.lookup, .afterUnlink, .done]
+def putSites : List PutFx := [.lookup, .removeOld, .insertNew, .callback, .inDrop]
+def rmSites : List RmFx := [.lookup, .callback, .keyDrop]
 
-/-- every state the model allows after an abort somewhere inside the operation (`none`: not modelled) -/
-def outcomes (w : W K V) (op : String) (args : List Nat) : Option (List (W K V)) :=
+/-- the drop log as the harness prints it: keys ascending, then values ascending -/
+def renderDrops (l : List (Obj K V)) : List (Bool × Nat) :=
+  let ks := sortNat (l.filterMap fun | .key k => some k | .val _ => none)
+  let vs := sortNat (l.filterMap fun | .val v => some v | .key _ => none)
+  ks.map (fun k => (true, k)) ++ vs.map (fun v => (false, v))
+
+def parseDrops (s : String) : List (Bool × Nat) :=
+  let body := (s.dropWhile (· != '[')).drop 1 |>.takeWhile (· != ']')
+  (body.toString.splitOn " ").filterMap fun t =>
+    if t.startsWith "k" then (t.drop 1).toString.toNat?.map fun n => (true, n)
+    else if t.startsWith "v" then (t.drop 1).toString.toNat?.map fun n => (false, n)
+    else none
+
+/-- is `a` a sub-multiset of `b` (both sorted by `renderDrops`)? -/
+def subMulti : List (Bool × Nat) → List (Bool × Nat) → Bool
+  | [], _ => true
+  | _ :: _, [] => false
+  | x :: xs, y :: ys => if x == y then subMulti xs ys else subMulti (x :: xs) ys
+
+/-- every (state, dropped objects) the model allows after an abort somewhere inside the operation;
+    `none` for the drops: `clone` drops (some of) the clones it made, which carry the numbers of the originals:
+    a sub-multiset of the payload -/
+def outcomes (w : W K V) (op : String) (args : List Nat) : Option (List (W K V × Option (List (Obj K V)))) :=
   let fresh := w.chain.length + 1
+  let putO (k v : Nat) := (putSites.filter (putApplies w k)).map fun s => (put w k v fresh s.site, some (putFx w k v s).dropped)
   match op, args with
-  | "put", [k, v] => some (putSites.map (put w k v fresh))
-  | "peekorput", [k, v] | "containsorput", [k, v] => some (w :: putSites.map (put w k v fresh))
-  | "peekmutorput", [k, v, _] => some (w :: putSites.map (put w k v fresh))
-  | "get", [k] | "getmut", [k, _] => some (rmSites.map (get w k))
-  | "peek", [_] | "peekmut", [_, _] | "contains", [_] => some [w]
-  | "remove", [k] => some (rmSites.map (remove w k))
-  | "removelru", [] => some (rmSites.map (removeLru w))
+  | "put", [k, v] => some (putO k v)
+  -- hit: the surplus arguments are dropped by the frame, whichever call panics
+  | "peekorput", [k, v] | "containsorput", [k, v] | "peekmutorput", [k, v, _] =>
+    some ((w, some [Obj.key k, Obj.val v]) :: (if (lookup k w.index).isSome then [] else putO k v))
+  | "get", [k] | "getmut", [k, _] => some (rmSites.map fun s => (get w k s.site, some []))
+  | "peek", [_] | "peekmut", [_, _] | "contains", [_] => some [(w, some [])]
+  | "remove", [k] => some (rmSites.map fun s => (remove w k s.site, some (removeFx w k s).dropped))
+  | "removelru", [] => some (rmSites.map fun s => (removeLru w s.site, some (removeLruFx w s).dropped))
   -- `clone` runs `K::clone` / `V::clone` and `put`s into the NEW cache only: the original is never touched
-  | "clone", [] => some [w]
-  | "purge", [] => some ((List.range (w.chain.length + 1)).flatMap fun j => rmSites.map (purge w j))
+  | "clone", [] => some [(w, none)]
+  | "purge", [] =>
+    some ((List.range (w.chain.length + 1)).flatMap fun j => rmSites.map fun s => (purge w j s.site, some (purgeFx w j s).dropped))
   | "resize", [n] =>
-    some (resize w n 0 .done true :: (List.range (w.chain.length + 1)).flatMap fun j => rmSites.map fun s => resize w n j s false)
+    some ((List.range (w.chain.length + 1)).flatMap fun j =>
+      rmSites.map fun s => (resize w n j s.site false, some (resizeFx w n j s false).dropped))
   | _, _ => none
 
 def field (parts : List String) (pfx : String) : Option String :=
@@ -64,8 +89,8 @@ def field (parts : List String) (pfx : String) : Option String :=
 
 def checkLine (line : String) : String :=
   let parts := (line.splitOn " | ").map (·.trimAscii.toString)
-  match field parts "cap=", field parts "op=", field parts "pre=", field parts "post=" with
-  | some capf, some opf, some pref, some postf =>
+  match field parts "cap=", field parts "op=", field parts "pre=", field parts "post=", field parts "dr=" with
+  | some capf, some opf, some pref, some postf, some drf =>
     let cap := ((capf.splitOn " ").head!).toNat!
     let precap := match field ((capf.splitOn " ").map (·.trimAscii.toString)) "precap=" with
       | some p => p.toNat!
@@ -84,8 +109,12 @@ def checkLine (line : String) : String :=
     let seen := (parseEnts qc, sortNat (parseKeys qi), cap)
     match outcomes w op args with
     | none => s!"skip {op}"
-    | some ws => if ws.any (fun w' => proj w' == seen) then "ok" else s!"UNEXPECTED {line}"
-  | _, _, _, _ => s!"BAD {line}"
+    | some ws =>
+      let dr := parseDrops drf
+      if ws.any (fun (w', d) => proj w' == seen && (match d with | some d => renderDrops d == dr | none => subMulti dr (renderDrops (payload w'.chain)))) then "ok"
+      else if ws.any (fun (w', _) => proj w' == seen) then s!"UNEXPECTED-DROPS {line}"
+      else s!"UNEXPECTED {line}"
+  | _, _, _, _, _ => s!"BAD {line}"
 
 partial def loop (h : IO.FS.Stream) : IO Unit := do
   let line ← h.getLine
